@@ -24,6 +24,7 @@ var monitorTable = map[string]struct {
 	"TransMon":    {"loctrans", "TransMon.cfg", func() map[string]any { return transDefaults }},
 	"ConvergeMon": {"gossip", "ConvergeMon.cfg", func() map[string]any { return gossipDefaults }},
 	"AskMon":      {"future", "AskMon.cfg", func() map[string]any { return askDefaults }},
+	"AskLifeMon":  {"future", "AskLifeMon.cfg", func() map[string]any { return askLifeDefaults }},
 	"ConfineMon":  {"confine", "ConfineMon.cfg", func() map[string]any { return confineDefaults }},
 }
 
